@@ -80,7 +80,9 @@ Diff(p, a, b, ma, mb) ==
          \cup (IF a.ok # b.ok THEN {V(p \o ".query-step", <<a.op, a.i>>)} ELSE {})
     \* (a query naming a removed entity as target: the typed API checks per-query targets, the ID-based API does not -
     \* each execution is held to "rejected or empty" by ArkTrace, the two API paths are not compared with each other)
-    ELSE IF a.k = "probe" /\ p = "C14" /\ a.stale THEN {}
+    \* (C06: the two executions recycle ids in a different order, so the same stale ordinal is a recycled id in one and
+    \* a plain dead one in the other)
+    ELSE IF a.k = "probe" /\ a.stale THEN {}
     ELSE IF a.k = "probe"
     THEN (IF a.panic # b.panic THEN {V(p \o ".panic-differs", "probe")} ELSE {})
          \cup (IF Bag(OrdSeq(ma, Es(a.visited))) # Bag(OrdSeq(mb, Es(b.visited))) \/ a.count # b.count
